@@ -51,6 +51,12 @@ MODES = ("raise", "sticky", "die_before", "die_after")
 @st.composite
 def st_case(draw, threaded=None):
     d = draw(c01.st_case(threaded=threaded))
+    if all(len(r) < 2 for r in d["rows"].values()):
+        s0 = sorted(d["rows"])[0]
+        d["rows"][s0] = [[0, 1], [2, 3], [4, 6]]
+        d["t1"] = max(d["t1"], 7)
+        d["cutsA"][s0] = [c for c in d["cutsA"][s0] if c not in (5,)]
+        d["cutsB"][s0] = [c for c in d["cutsB"][s0] if c not in (5,)]
     prov = graphs.providers(d["spec"])
     # make sure something is saved by the request: target saved at least when it is the target
     tn = prov[d["target"]]
@@ -138,7 +144,7 @@ def spread(xs, n):
     return [xs[i] for i in idx]
 
 
-def run_case(d):
+def run_case(d, max_indices=0):
     spec, unit = d["spec"], d["unit"]
     token = f"c04-{os.getpid()}-{next(_COUNTER)}"
     rt = graphs.new_runtime(token)
@@ -181,6 +187,10 @@ def run_case(d):
             return dict(nt=False, classes=["no_fs_ops"])
 
         indices = list(range(L)) if L <= 80 else spread(list(range(L)), 40)
+        if max_indices:
+            # quick tier: a spread of positions that always contains one of every operation label
+            first_of_label = sorted({labels.index(x) for x in set(labels)})
+            indices = sorted(set(spread(indices, max_indices)) | set(first_of_label))
         inner = 0
         cl = set()
         n_src_chunks = sum(len(c) + 1 for c in d["cutsB"].values())
@@ -251,7 +261,14 @@ def run_case(d):
             shutil.rmtree(p, ignore_errors=True)
 
 
+def run_case_spread(d):
+    return run_case(d, max_indices=6)
+
+
 SUBCHECKS = [
-    SubCheck("single", run_case, strategy=lambda: st_case(threaded=False), quick=32, thorough=1200, min_per_shard=1),
-    SubCheck("threaded", run_case, strategy=lambda: st_case(threaded=True), quick=48, thorough=1600, min_per_shard=1),
+    SubCheck("single_spread", run_case_spread, strategy=lambda: st_case(threaded=False), quick=32, thorough=800,
+             min_per_shard=1),
+    SubCheck("threaded_spread", run_case_spread, strategy=lambda: st_case(threaded=True), quick=48, thorough=1600,
+             min_per_shard=1),
+    SubCheck("all_indices", run_case, strategy=lambda: st_case(), quick=16, thorough=1200, min_per_shard=1),
 ]
